@@ -235,7 +235,7 @@ class SingleLoss:
     def __init__(self, E, eq_type, net_kind='PINN', d=2, m_u=1, m_res=1, terms=('dyn',), wkind='scalar',
                  eq_keys=('nu',), derivative_keys=None, bc='dirichlet', bc_ret='vector', bc_dim=None,
                  per_facet=None, obs_slice=None, ic_t0=None, net_name='u', unit_weights=False, dyn=None, params=None,
-                 weight_value=None):
+                 weight_value=None, wkind_terms=('dyn_loss',)):
         self.E, self.eq_type, self.net_kind, self.d, self.m_u, self.m_res = E, eq_type, net_kind, d, m_u, m_res
         self.terms = set(terms)
         d_net = 0 if eq_type == 'ODE' else d
@@ -257,7 +257,7 @@ class SingleLoss:
             names = ('dyn_loss', 'norm_loss', 'boundary_loss', 'observations', 'initial_condition')
         for n in names:
             mm = {'dyn_loss': m_res}.get(n, m_u)
-            self.w[n] = weight(wkind if n in ('dyn_loss',) else 'scalar', mm, name='w_' + n) if not unit_weights else 1.0
+            self.w[n] = weight(wkind if n in wkind_terms else 'scalar', mm, name='w_' + n) if not unit_weights else 1.0
             if weight_value is not None:
                 self.w[n] = weight_value        # the same concrete weight for every term, in the representation under test
         self.weights = LW(**self.w)
